@@ -127,6 +127,9 @@ HostileViol(e) ==
     \cup (IF e.ncalls > 0 THEN {"C05/handler-invoked-with-invalid-arguments/c=" \o Str(e.c) \o "/" \o r : r \in CallArgsViol(e.calls[1])} ELSE {})
     \cup (IF e.ncalls > 0 /\ e.c \in FeServed /\ e.nfds # Prescribed(e)
           THEN {"C05/dispatched-with-wrong-descriptor-count/c=" \o Str(e.c) \o "/sent=" \o (IF e.nfds > 2 THEN "many" ELSE Str(e.nfds))} ELSE {})
+    \cup (IF e.ncalls > 0 /\ "files" \in DOMAIN e.calls[1] /\ \E i \in 1..Len(e.calls[1].files) :
+                (e.calls[1].files[i] \notin ToSet(e.fdids) \/ \E j \in 1..Len(e.calls[1].files) : j # i /\ e.calls[1].files[j] = e.calls[1].files[i])
+          THEN {"C09/backend-server/descriptor-delivered-twice-or-unknown/c=" \o Str(e.c)} ELSE {})
     \cup (IF ListedBodyRule(e) /\ (e.ncalls > 0 \/ e.res = "ok") THEN {"C05/invalid-request-accepted/" \o tag} ELSE {})
     \cup (IF e.res \notin {"ok", "panic"} /\ ~e.res_ok /\ e.hang THEN {"C05/hang/" \o tag} ELSE {})
 
@@ -185,7 +188,12 @@ TVReq == /\ l <= Len(Rec) /\ Rec[l].ev = "req"
          /\ l' = l + 1
          /\ UNCHANGED <<devPF, cur>>
 
-TVNext == TVReset \/ TVReq
+TVTeardown == /\ l <= Len(Rec) /\ Rec[l].ev = "teardown"
+              /\ viol' = AddViol(viol, TeardownViol(Rec[l], "backend-server"), cur)
+              /\ l' = l + 1
+              /\ UNCHANGED <<s, devPF, judged, cur>>
+
+TVNext == TVTeardown \/ TVReset \/ TVReq
 TVSpec == TVInit /\ [][TVNext]_tvars
 
 Post == PostOK
